@@ -69,9 +69,10 @@ def model_run(cfg, faults, target='x'):
 
 def build_app(cfg):
     classes = {}
-    for t, spec in cfg['types'].items():
+    for t, spec in sorted(cfg['types'].items()):      # a base type has a smaller index than its subclasses
         classes[t] = make_mw_type('C03' + t, spec['unique'], spec['reorderable'],
-                                  dict((ph, {}) for ph in spec['phases']))
+                                  dict((ph, {}) for ph in spec['phases']),
+                                  base=classes[spec['base']] if spec.get('base') else None, hooks=spec.get('hooks', 'method'))
     outer, sub, route = instances(cfg)
 
     def objs(lst):
@@ -108,7 +109,7 @@ class C03(Check):
     level_text = ('For each generated stack the single-fault space (<= 17 layers x 4 behaviours) is enumerated '
                   'completely and compared, event by event, with a reference interpreter; stacks are sampled by seed.')
     level_note = 'Trusted: the reference onion interpreter (written from the property text, ~90 lines).'
-    required_probes = ('second-route-without-own-middlewares', 'render-skipped-for-response', 'no-render-layers-ran', 'unique-deduped', 'three-levels',
+    required_probes = ('subclass-and-base-in-one-stack', 'closure-hooks', 'second-route-without-own-middlewares', 'render-skipped-for-response', 'no-render-layers-ran', 'unique-deduped', 'three-levels',
                        'swallow-fired', 'double-fault')
 
     def gen_config(self, rng):
@@ -117,7 +118,15 @@ class C03(Check):
         for i in range(ntypes):
             phases = [ph for ph in PHASES if rng.random() < 0.6] or [rng.choice(PHASES)]
             u = rng.random() < 0.7
-            types['T%d' % i] = {'unique': u, 'reorderable': (rng.random() < 0.75) if u else True, 'phases': phases}
+            types['T%d' % i] = {'unique': u, 'reorderable': (rng.random() < 0.75) if u else True, 'phases': phases,
+                                 # a SUBCLASS of an earlier type is still a different type (no de-duplication between them)
+                                 'base': ('T%d' % rng.randrange(i)) if (i and rng.random() < 0.35) else None,
+                                 # hooks as plain functions from one factory (same __name__/__module__ on every instance)
+                                 'hooks': 'closure' if rng.random() < 0.3 else 'method'}
+            if types['T%d' % i]['base']:
+                parent = types[types['T%d' % i]['base']]
+                types['T%d' % i]['phases'] = [ph for ph in PHASES if ph in phases or ph in parent['phases']]
+                types['T%d' % i]['hooks'] = parent['hooks']
         keys = sorted(types)
 
         def pick(maxn, banned=()):
@@ -184,6 +193,11 @@ class C03(Check):
             res.probe('unique-deduped')
         if cfg.get('sub') is not None:
             res.probe('three-levels')
+        used = set(cfg['outer']) | set(cfg.get('sub') or []) | set(cfg['route'])
+        if any(cfg['types'][t].get('base') in used for t in used):
+            res.probe('subclass-and-base-in-one-stack')
+        if any(cfg['types'][t].get('hooks') == 'closure' for t in used):
+            res.probe('closure-hooks')
         shape = '%d/%s/%d|%s|%s' % (len(cfg['outer']), len(cfg['sub']) if cfg.get('sub') is not None else '-',
                                     len(cfg['route']), cfg['ep_returns'], cfg['has_render'])
         for step, op in enumerate(plan['ops']):
